@@ -299,6 +299,17 @@ class SystemBathInteraction(Saveable):
             self.sbitype == "Vibrational_Lindblad_Form"):
             return False
         else:
+            # bath functions at different temperatures are not "no 
+            # temperature": this case is not answered but refused
+            temps = []
+            for cf in getattr(self.CC, "cfuncs", []):
+                if cf is not None:
+                    Tcf = cf.get_temperature()
+                    if Tcf not in temps:
+                        temps.append(Tcf)
+            if len(temps) > 1:
+                raise Exception("Temperature of the bath is not consistent: "
+                                +str(temps))
             try:
                 T = self.get_temperature()
                 if T >= 0.0:
